@@ -794,7 +794,9 @@ def spec_c20(tier, seed):
     parts = [{'lib': l, 'm': m} for l in ('rx4', 'rx3') for m in ms]
     return dict(
         conds=[
-            Cond('c20_rx', 'c_client_stream', parts=parts, timeout=600),
+            # m=3 also in the quick tier: the smallest stream on which a re-request BEFORE a whole batch was consumed
+            # (limit 4, replenish after 3) shows as outstanding demand above the request limit (seed C20-4)
+            Cond('c20_rx', 'c_client_stream', parts=parts + ([{'lib': l, 'm': 3} for l in ('rx4', 'rx3')] if q else []), timeout=600),
             Cond('c20_rx', 'c_client_channel_out', parts=parts, timeout=600),
             Cond('c20_rx', 'c_client_single', parts=[{'lib': l} for l in ('rx4', 'rx3')], timeout=300),
             Cond('c20_rx', 'c_handler_adapter', parts=parts, timeout=600),
